@@ -81,6 +81,19 @@ def corpus(ctx, n_gen, n_variants, seeds_perturb=1):
     return out
 
 
+def model_batch(ctx, lines):
+    """Like ctx.model_batch, but on a private copy of the driver binary taken right after this run's
+    `lake build` (other checks relink the shared binary concurrently)."""
+    import shutil
+    from .common import DRIVER, batch
+    path = getattr(ctx, "_fmt_driver", None)
+    if path is None:
+        path = os.path.join(ctx.scratch("driver"), "gvdriver")
+        shutil.copy2(DRIVER, path)
+        ctx._fmt_driver = path
+    return batch([path], lines)
+
+
 def has_nonascii_outside(src):
     """Non-ASCII characters outside string literals and comments make the lexer panic (C01)."""
     spans = G.protected_spans(src)
